@@ -66,7 +66,10 @@ impl<T: RealNumber, M: Matrix<T>> InteriorPointOptimizer<T, M> {
             return Ok(M::zeros(p, 1));
         }
 
-        let max_ls_iter = 100;
+        // the step is halved per iteration, so 1100 iterations take it from 1 below the smallest positive
+        // double; the former limit of 100 was never enforced (see the counter below) and is too small:
+        // valid fits were observed to need several hundred halvings
+        let max_ls_iter = 1100;
         let mut pitr = 0;
         let mut w = M::zeros(p, 1);
         let mut neww = w.clone();
